@@ -410,7 +410,8 @@ template <class T> static void runGuards ()
     if (!(want > 1e-300L && want < 1e320L)) { ++counts["guard_scale_out_of_range"]; return; }
     int e = (int) std::floor (log2l (want) + 0.5L);
     Q s = (Q) std::ldexp (1.0, e);
-    if (!(std::ldexp (8.0, e) < (double) std::numeric_limits<T>::max ())) { ++counts["guard_scale_out_of_range"]; return; }
+    // positions up to 4*2^e and a foot parameter up to max/2: keep |pos| + |foot| representable (64 * 2^e < max)
+    if (!(std::ldexp (64.0, e) < (double) std::numeric_limits<T>::max ())) { ++counts["guard_scale_out_of_range"]; return; }
     Vec3<T> p1 = it<T> (a0) * (T) std::ldexp (1.0, e), p2 = it<T> (b0) * (T) std::ldexp (1.0, e);
     Line3<T> L1, L2;
     L1.pos = p1; L1.dir = l1.dir; L2.pos = p2; L2.dir = d2T;
